@@ -368,7 +368,7 @@ func buildScenario(p *Plan) (atrun.Scenario, *stepIdx) {
 		add(atrun.Step{Op: "exec", Via: "bare", SQL: fmt.Sprintf("UPDATE undo_log SET rollback_info = 'not an undo log' WHERE branch_id = %d", p.Corrupt+1)})
 	}
 	ix.df = add(atrun.Step{Op: "dump"})
-	for _, d := range p.Deliver {
+	for di, d := range p.Deliver {
 		if d.Fault >= 0 {
 			act := "error"
 			if d.Drop {
@@ -376,12 +376,20 @@ func buildScenario(p *Plan) (atrun.Scenario, *stepIdx) {
 			}
 			add(atrun.Step{Op: "db_fault", Fault: &fakedb.Fault{Kinds: faultKinds, Pattern: faultPattern, Skip: d.Fault, Count: 1, Action: act}})
 		}
+		if d.ReadOn {
+			add(atrun.Step{Op: "db_fault", Fault: &fakedb.Fault{Kinds: []string{"QUERY", "STMT_QUERY"}, Pattern: faultPattern, Skip: d.Read, Count: 1,
+				Action: "breakrows", Rows: d.ReadRows, ErrNo: 1213}})
+		}
+		if di == 0 && p.HookWrite != nil {
+			add(atrun.Step{Op: "db_hook", Fault: &fakedb.Fault{Kinds: []string{"QUERY"}, Pattern: "^(?i)\\s*SELECT \\* FROM", Count: 1},
+				Steps: []atrun.Step{{Op: "exec", Via: "bare", SQL: p.HookWrite.SQL}}})
+		}
 		if d.Hold != "" {
 			add(atrun.Step{Op: "tx_begin", Via: "bare", Conn: "holder"})
 			add(atrun.Step{Op: "query", Via: "bare", Conn: "holder", SQL: holdSQL(p, d)})
 		}
 		ix.deliveries = append(ix.deliveries, add(atrun.Step{Op: "phase2", Action: "rollback", Gtx: 0, Branch: d.Branch}))
-		if d.Fault >= 0 {
+		if d.Fault >= 0 || d.ReadOn || (di == 0 && p.HookWrite != nil) {
 			add(atrun.Step{Op: "db_fault_clear"})
 		}
 		if d.Hold != "" {
@@ -530,13 +538,16 @@ func journalOf3(tr *atrun.Trace, s *atrun.StepResult) (fired bool, ops int, firs
 		if e.Seq <= s.SeqFrom || e.Seq > s.SeqTo || e.DB == nil {
 			continue
 		}
+		if e.DB.DSNTag == "bare" {
+			continue // another session (lock holder, hook write): not a call of the rollback
+		}
 		if e.DB.Injected {
 			fired = true
 		}
 		switch e.DB.Kind {
 		case "BEGIN", "EXEC", "QUERY", "PREPARE", "STMT_EXEC", "STMT_QUERY", "COMMIT":
 			if !strings.Contains(strings.ToUpper(e.DB.SQL), "INFORMATION_SCHEMA") {
-				if e.DB.Err != "" && firstErr < 0 {
+				if (e.DB.Err != "" || (e.DB.Injected && (e.DB.Kind == "QUERY" || e.DB.Kind == "STMT_QUERY"))) && firstErr < 0 {
 					firstErr = ops
 				}
 				ops++
@@ -766,6 +777,15 @@ func runPlan(p *Plan, faultAt int) (*CaseJ, int) {
 			out = ph.Status
 		}
 		fired, ops, firstErr := journalOf3(tr, st)
+		if di == 0 && p.HookWrite != nil && !d.ReadOn && d.Fault < 0 {
+			fired = false // the hook's trigger is journalled as injected; it fails nothing
+		}
+		if d.ReadOn && fired && firstErr >= 0 {
+			// the result set of that query broke off: the call with that index failed (the error surfaces at rows.Err())
+			d.Fault = firstErr
+		} else if d.ReadOn {
+			fired = false
+		}
 		if d.Hold != "" && firstErr >= 0 {
 			// the lock holder made that call fail (1205, not applied): the same observable as an injected failure there
 			fired, d.Fault = true, firstErr
@@ -775,9 +795,35 @@ func runPlan(p *Plan, faultAt int) (*CaseJ, int) {
 		if ph.Class != "ok" {
 			bad("rollback of branch %d: processor call ended %s", bids[d.Branch], ph.Class)
 		}
+		hookLanded := false
+		if di == 0 && p.HookWrite != nil {
+			for _, h := range tr.HookResults {
+				if h.Op == "exec" && h.Class == "ok" {
+					hookLanded = true
+				}
+			}
+			if hookLanded {
+				// (only possible when the validation read took no row lock) the write of the other session landed in
+				// the middle of the rollback transaction
+				c.Events = append(c.Events, EventJ{E: "foreign", Writes: []Foreign{*p.HookWrite}, Fault: -1, Out: -1})
+				i := after[p.HookWrite.Table].find(p.HookWrite.Key)
+				kept := i >= 0 && p.HookWrite.Set != nil && keyStr(after[p.HookWrite.Table].Rows[i].Vals) == keyStr(p.HookWrite.Set)
+				if out == 8 && !kept {
+					bad("C09: a foreign write that landed between the validation read and the compensating statement of the rollback of branch %d was overwritten, PhaseTwo_Rollbacked answered", bids[d.Branch])
+				}
+			}
+		}
 		c.Events = append(c.Events, EventJ{E: "rollback", B: bids[d.Branch], Fault: d.Fault, Out: out, Fired: fired, Tabs: after.list(p.Tables), Ops: ops})
 		if d.Fault < 0 && ops > maxOps {
 			maxOps = ops
+			nq := 0
+			for _, e := range tr.Journal {
+				if e.Seq > st.SeqFrom && e.Seq <= st.SeqTo && e.DB != nil && (e.DB.Kind == "QUERY" || e.DB.Kind == "STMT_QUERY") &&
+					!strings.Contains(strings.ToUpper(e.DB.SQL), "INFORMATION_SCHEMA") {
+					nq++
+				}
+			}
+			c.Stats["queries"] = nq
 		}
 		switch {
 		case fired:
@@ -795,7 +841,7 @@ func runPlan(p *Plan, faultAt int) (*CaseJ, int) {
 			if !sameDB(after, prev, p.Tables) || afterUndo != prevUndo {
 				bad("a refused rollback of branch %d changed data", bids[d.Branch])
 			}
-		case p.Stream == "c09" && exp09 != "":
+		case p.Stream == "c09" && exp09 != "" && !hookLanded:
 			switch exp09 {
 			case "dirty":
 				if out == 8 {
@@ -924,7 +970,22 @@ func Run(args map[string]string) {
 	emit := func(p *Plan, r *hutil.Rng, kf int) {
 		switch p.Stream {
 		case "c09":
-			c09Foreign(p, runShadow(p), r)
+			switch r.Intn(8) {
+			case 0: // no foreign write beforehand: one is attempted in the middle of the rollback transaction instead
+				sr := runShadow(p)
+				c09Foreign(p, sr, r)
+				// only a row that exists when the validation reads it can be locked by that read (no gap locks in the
+				// stand-in database): the mid-transaction write targets rows the branch inserted or updated
+				if len(p.Foreign) == 1 && p.Foreign[0].Set != nil && len(sr.after) > 0 && sr.after[0][p.Foreign[0].Table].find(p.Foreign[0].Key) >= 0 {
+					f := p.Foreign[0]
+					p.HookWrite, p.Foreign = &f, nil
+				}
+			case 1: // foreign write, then the validation read breaks off; a clean delivery follows
+				c09Foreign(p, runShadow(p), r)
+				p.Deliver = []Delivery{{Branch: 0, Fault: -1, ReadOn: true, Read: 1, ReadRows: r.Intn(2)}, {Branch: 0, Fault: -1}}
+			default:
+				c09Foreign(p, runShadow(p), r)
+			}
 			c, _ := runPlan(p, -1)
 			cases = append(cases, c)
 		case "c10fault":
@@ -951,6 +1012,19 @@ func Run(args map[string]string) {
 				q.Deliver = []Delivery{{Branch: 0, Fault: k, Drop: k == ops-1}, {Branch: 0, Fault: -1}}
 				c, _ := runPlan(&q, k)
 				cases = append(cases, c)
+			}
+			// every query of the rollback transaction (undo_log select, validation reads) breaks off after 0 / 1 rows
+			for j := 0; j < base.Stats["queries"]; j++ {
+				for _, n := range []int{0, 1} {
+					if kf > 0 && !(n == 0 || r.Chance(1, 3)) {
+						continue
+					}
+					q := *p
+					q.Name = fmt.Sprintf("%s-r%d.%d", p.Name, j, n)
+					q.Deliver = []Delivery{{Branch: 0, Fault: -1, ReadOn: true, Read: j, ReadRows: n}, {Branch: 0, Fault: -1}}
+					c, _ := runPlan(&q, -1)
+					cases = append(cases, c)
+				}
 			}
 		default:
 			c, _ := runPlan(p, -1)
